@@ -1320,41 +1320,14 @@ fn parse_expression(
 
                 let rhs_expr = parse_expression(tokens, id_gen, diagnostics);
 
-                match rhs_expr.expr_ {
-                    Expression_::BinaryOperator(next_lhs, next_op, next_rhs) => {
-                        // Our recursive logic gives us right-associativity,
-                        // i.e. `x OP (y OP z)`, convert to `(x OP y) OP z`.
-
-                        let expr_pos = expr.position.clone();
-
-                        let new_inner = Expression::new(
-                            Position::merge(&expr_pos, &next_lhs.position),
-                            Expression_::BinaryOperator(
-                                Rc::new(expr),
-                                token_as_binary_op(&token).unwrap(),
-                                next_lhs,
-                            ),
-                            id_gen.next(),
-                        );
-
-                        expr = Expression::new(
-                            Position::merge(&expr_pos, &next_rhs.position),
-                            Expression_::BinaryOperator(Rc::new(new_inner), next_op, next_rhs),
-                            id_gen.next(),
-                        );
-                    }
-                    _ => {
-                        expr = Expression::new(
-                            Position::merge(&expr.position, &rhs_expr.position),
-                            Expression_::BinaryOperator(
-                                Rc::new(expr),
-                                token_as_binary_op(&token).unwrap(),
-                                Rc::new(rhs_expr),
-                            ),
-                            id_gen.next(),
-                        );
-                    }
-                }
+                // Our recursive logic gives us right-associativity,
+                // i.e. `x OP (y OP z)`, convert to `(x OP y) OP z`.
+                expr = attach_to_leftmost_operand(
+                    expr,
+                    token_as_binary_op(&token).unwrap(),
+                    rhs_expr,
+                    id_gen,
+                );
             }
             _ => break,
         }
@@ -1365,6 +1338,36 @@ fn parse_expression(
     }
 
     expr
+}
+
+/// Build `lhs OP rhs`, where `rhs` may itself be a left-associative
+/// chain `((y OP z) OP w)`. The result is the left-associative chain
+/// `(((lhs OP y) OP z) OP w)`: `lhs OP` is attached to the leftmost
+/// operand of `rhs`, however long the chain is.
+fn attach_to_leftmost_operand(
+    lhs: Expression,
+    op: BinaryOperatorSymbol,
+    rhs: Expression,
+    id_gen: &mut IdGenerator,
+) -> Expression {
+    match rhs.expr_ {
+        Expression_::BinaryOperator(next_lhs, next_op, next_rhs) => {
+            let lhs_pos = lhs.position.clone();
+            let next_lhs = Rc::try_unwrap(next_lhs).unwrap_or_else(|rc| (*rc).clone());
+            let new_inner = attach_to_leftmost_operand(lhs, op, next_lhs, id_gen);
+
+            Expression::new(
+                Position::merge(&lhs_pos, &next_rhs.position),
+                Expression_::BinaryOperator(Rc::new(new_inner), next_op, next_rhs),
+                id_gen.next(),
+            )
+        }
+        _ => Expression::new(
+            Position::merge(&lhs.position, &rhs.position),
+            Expression_::BinaryOperator(Rc::new(lhs), op, Rc::new(rhs)),
+            id_gen.next(),
+        ),
+    }
 }
 
 /// Parse an expression up to (but excluding) trailing syntax.
